@@ -128,9 +128,10 @@ impl StatementWrapper {
             StatementVer::Naive => serde_json::from_value(value)
                 .map(Self::Naive)
                 .map_err(|e| e.into()),
-            StatementVer::V0_1 => serde_json::from_value(value)
-                .map(Self::V0_1)
-                .map_err(|e| e.into()),
+            StatementVer::V0_1 => serde_json::from_value::<StateV01>(value)
+                .map_err(|e| e.into())
+                .and_then(StateV01::check_predicate_type)
+                .map(Self::V0_1),
         }
     }
 
